@@ -2101,8 +2101,23 @@ class Exec:
                 if isinstance(s, ast.Nonlocal):
                     nl |= set(s.names)
             return fields, lists, names & nl
-        cands = [c for q, c in self.ctx.contracts.items() if q.split(".")[-1] == name or (name in self.ctx.sources.classes and q.endswith(f".{name}.__init__"))]
+        cands = [c for q, c in self.ctx.contracts.items() if (q.split("#")[0].split(".")[-1] == name and not q.endswith("#loops")) or (name in self.ctx.sources.classes and q.endswith(f".{name}.__init__"))]
         fields, lists = set(), False
+        if not cands and name not in self.ctx.sources.classes:
+            # callee without a contract (it will be inlined): its effects are read off its body -- every method / function of that name
+            stack = getattr(self, "_eff_stack", set())
+            if name not in stack:
+                self._eff_stack = stack | {name}
+                try:
+                    bodies = [c["methods"][name] for c in self.ctx.sources.classes.values() if name in c["methods"]]
+                    if isinstance(f, ast.Name) and name in self.ctx.sources.functions:
+                        bodies.append(self.ctx.sources.functions[name])
+                    for b in bodies:
+                        nm_, fl_, ls_ = self.assigned(b.body)
+                        fields |= fl_
+                        lists = lists or ls_
+                finally:
+                    self._eff_stack = stack
         for c in cands:
             for fld in c.modifies:
                 if fld == "@lists":
@@ -2334,6 +2349,8 @@ class Exec:
                     L.frozen_heap = dict(s.heap)       # an anonymous range object cannot be mutated by the loop body
             else:
                 L = self.ev(e, s)
+                if isinstance(L, ListV) and isinstance(e, (ast.ListComp, ast.List)):
+                    L.frozen_heap = dict(s.heap)       # an anonymous list (comprehension / literal) cannot be reached, hence not mutated, by the loop body
             if isinstance(L, ConstList):
                 return self.unroll_for(x, L, s, enum)
             if isinstance(L, ConstDict):
